@@ -115,6 +115,17 @@ def main(run):
             run.native_evals += e
             run.native_distinct.update(("seq", gk, n, j) for j in range(e))
             rows.append({"generator": gk, "computer": comp, "gap": gap, "budget": budget, "n": n, "steps_checked": e, "failures": f})
+    # `done` by degenerate intervals before everything is revealed, on games with non-dyadic float values and the
+    # exploitability gap, whole episodes without a step budget: there the gap is +-1e-16 rather than 0.0, so a `done` that
+    # is right over the reals but asks the wrong float question (gap == 0 instead of all widths == 0) shows
+    for gk, comp in (("noisy_factory", "superadditive_cached"), ("xs", "sam_apx_1"), ("noisy_factory", "superadditive"),
+                     ("covg_fn_generator", "sam_apx_1"), ("xos", "superadditive_cached")):
+        for n in (3, 4):
+            e, f = native_sequences(run, n, gk, comp, "exploitability", None, 6 if quick else 40)
+            run.native_evals += e
+            run.native_distinct.update(("seqd", gk, comp, n, j) for j in range(e))
+            rows.append({"generator": gk, "computer": comp, "gap": "exploitability", "budget": None, "n": n, "steps_checked": e, "failures": f,
+                         "purpose": "done by degenerate intervals (float)"})
     run.bounded.append({"label": "real ICG_Gym + real gymnasium along action sequences", "rows": rows,
                         "bound": "all orders for n=3, seeded orders for n=4,5; several generator families x computers x gaps x budgets"})
     return run.finish(
